@@ -176,6 +176,16 @@ def gen_poly(rng, n, tier):
         q = [rng.uniform(0.1 * L, 0.9 * L), rng.choice([0.55, 0.6, 0.75, 0.9]) * h]
         out.append({'pts': pts, 'q': q, 'edited': False, 'qtrack': rng.choice([None, 'fresh'])})
     for _ in range(max(20, n // 40)):
+        # a leg that is almost, but not exactly, north-south (an easting drift of a micrometre over metres), and a query beside it or on it
+        x0 = float(rng.randint(-50, 50)); y0 = float(rng.randint(-50, 50))
+        # (slopes between 2e-7 and 1e-6: steeper still, the foot computed through -c / b loses micrometres by cancellation - the neighbourhood of the open finding on vertical segments)
+        drift, L = rng.choice([(1e-5, 10.0), (5e-6, 5.0), (1e-5, 40.0), (1e-6, 5.0), (2e-6, 10.0)]); drift *= rng.choice([1, -1])
+        pts = [[x0 - rng.randint(3, 20), y0 - rng.randint(-5, 5)], [x0, y0], [x0 + drift, y0 + L], [x0 + drift + rng.randint(3, 20), y0 + L + rng.randint(-5, 5)]]
+        if rng.random() < 0.3:
+            pts = pts[::-1]
+        q = [x0 + rng.choice([rng.uniform(-8, 8), 0.0, 3.0]), y0 + rng.uniform(0.05, 0.95) * L]
+        out.append({'pts': pts, 'q': q, 'edited': False, 'qtrack': rng.choice([None, 'fresh'])})
+    for _ in range(max(20, n // 40)):
         # projected coordinates (eastings / northings: a large common offset) and a query a few millimetres past a vertex, on the next segment: it is millimetres from
         # the earlier segment and on the later one.  Distances are differences of nearby large numbers; the tolerance is that of the extent, not of the offset
         X0, Y0 = rng.choice([(651000.0, 6861000.0), (448250.0, 5411950.0)])
